@@ -80,6 +80,8 @@ def run_one(R, level, roots, db, api, label, w=None):
 def run(R):
     n = N_CASES[R.tier]
     levels = rig.LEVEL_CYCLE_V2
+    if R.shard == 1 % R.nshards:
+        boundary(R)
     for i in range(n):
         if not R.mine(i):
             continue
@@ -122,6 +124,25 @@ def run(R):
         for roots, db in corner:
             for level in rig.V2_LEVELS:
                 run_one(R, level, roots, db, "multiwalk", "corner")
+
+
+def boundary(R):
+    for label, roots, db in wc.boundary_cases():
+        many = len(roots) > 200
+        if many and R.tier == "quick" and label != "257-roots":
+            continue
+        for level in ("v2c", "v3-md5"):
+            if many and R.tier == "quick" and level != "v2c":
+                continue
+            run_one(R, level, roots, db, "multiwalk", label)
+            if len(roots) > 1:
+                run_one(R, level, list(reversed(roots)), db, "pymultiwalk" if many else "multiwalk", label)
+                if not many:
+                    run_one(R, level, roots, db, "pymultiwalk", label)
+            else:
+                run_one(R, level, roots, db, "walk", label)
+                run_one(R, level, roots, db, "pywalk", label)
+            R.mon["boundary_walks"] += 1
 
 
 def replay(R, v):
